@@ -118,6 +118,7 @@ def run_path(job):
     tol = c18.phase_tol(u, L, nzc)
     users, wants, ests = [], [], []
     held = []                      # (step, result object, copy at return): EarlierResultsUnchanged
+    known = []                     # mismatches with the signature of a listed finding (the history goes on)
 
     def frame(i, op):
         d = c18.maxdiff(root.seq_array(), want_root)
@@ -141,8 +142,15 @@ def run_path(job):
             if op["kind"] == "s-user":
                 d = op["d"]
                 rec = uecat[key(d)]
-                users.append(c18.ue_seq(d["fam"], root, d["ncs"], d["cover"], d["normalize"]))
-                wants.append(expected_user(rec))
+                users.append(c18.ue_seq(d["fam"], root, d["ncs"], d["cover"], d["normalize"], rec.get("flagform", "bool")))
+                w = expected_user(rec)
+                if rec.get("flagform", "bool") != "bool" and rec["norm2"] != 1:
+                    # FlagAgreement leaves open whether a non-singleton flag normalises: take what the object did at
+                    # creation (one of the two admissible arrays, checked here) as what it must KEEP
+                    now = np.asarray(users[-1].seq_array())
+                    if c18.amplitude_either(now, w, rec["norm2"], tol) <= tol and c18.maxdiff(now, w) > tol:
+                        w = w * np.sqrt(rec["norm2"])
+                wants.append(w)
                 ops_desc.append(d)
             elif op["kind"] == "s-newest":
                 uo = users[op["user"] - 1]
@@ -157,32 +165,46 @@ def run_path(job):
                 rec = estcat[key({"d": ops_desc[ui], "o": o, "v": op["v"]})]
                 facs = [1.0] + [c18.scale_of(q) for q in rec["scales"]]
                 f = facs[(i + op["v"]) % len(facs)]          # observations of very different magnitude on one object
-                got, want, truth = c18.estimate(rec["sc"], rec["est"], root, users[ui], e, factor=f)
+                sig = c18.extradim_signature(rec["sc"])
+                try:
+                    got, want, truth = c18.estimate(rec["sc"], rec["est"], root, users[ui], e, factor=f)
+                except Exception as ex:
+                    if not sig:
+                        raise
+                    known.append({"step": i, "op": op, "what": f"call {i} on estimator {op['est']} (occ, flattened observation, "
+                                  f"extra_dimension as {rec['sc']['flagform']}) raised {type(ex).__name__}: {ex}"})
+                    okc += 1
+                    continue
                 held.append((i, got, np.array(got, copy=True)))
                 scale = f * max(1.0, float(np.max(np.abs(truth))) / f)
                 dd = max(c18.maxdiff(got, want), c18.maxdiff(got, truth))
-                if dd > c18.TOL_REL * scale:
+                if dd > c18.TOL_REL * scale and sig:
+                    known.append({"step": i, "op": op, "what": f"call {i} on estimator {op['est']} (occ, flattened observation, "
+                                  f"extra_dimension as {rec['sc']['flagform']}) misses the frequency response by {dd:.3g}"})
+                    held.pop()
+                elif dd > c18.TOL_REL * scale:
                     sc = rec["sc"]
-                    return okc, {"step": i, "op": op, "what": f"call {i} on estimator {op['est']} ({sc['fam']}, size {L}, "
+                    return okc, known, {"step": i, "op": op, "what": f"call {i} on estimator {op['est']} ({sc['fam']}, size {L}, "
                                  f"{sc['nrx']} rx, keep {sc['keep']}, variant {op['v']}) misses the frequency response by {dd:.3g}; "
                                  f"earlier calls on this object: {[p['v'] for p in ops[:i] if p['kind'] == 's-est' and p['est'] == op['est']]}"}
             else:
                 raise ValueError(op["kind"])
         except Exception as ex:
-            return okc, {"step": i, "op": op, "what": f"step {i} ({op['kind']}) raised {type(ex).__name__}: {ex}"}
+            return okc, known, {"step": i, "op": op, "what": f"step {i} ({op['kind']}) raised {type(ex).__name__}: {ex}"}
         bad = frame(i, op)
         if bad:
-            return okc, bad
+            return okc, known, bad
         for st, obj, cp in held:
             if obj.shape != cp.shape or not np.array_equal(obj, cp):
-                return okc, {"step": i, "op": op, "what": f"after step {i} ({op['kind']}): the array returned by call {st} was "
+                return okc, known, {"step": i, "op": op, "what": f"after step {i} ({op['kind']}): the array returned by call {st} was "
                              f"overwritten (EarlierResultsUnchanged)"}
         okc += 1
-    return okc, None
+    return okc, known, None
 
 
 def explore(ctx, cfgrow, r):
     from ..core import pool_map
+    from . import c18
     label, alphabet, L, mu, me, variants, walks = cfgrow
     ctx.account(r, MODULE, label)
     cat = [e["op"] for e in r.emitted if e["post"]["phase"] == "cat"]
@@ -200,9 +222,16 @@ def explore(ctx, cfgrow, r):
         paths += g.random_walks(root, walks, 12, rng)
     jobs = [(label, L, any_ue["u"], any_ue["nzc"], any_ue["e"], uecat, estcat, [e["op"] for e in g.path_edges(p)]) for p in paths]
     res = pool_map(run_path, jobs, chunksize=max(1, len(jobs) // 48))
-    for job, (okc, bad) in zip(jobs, res):
+    def case_of(job, failing):
+        return {"kind": "session", "label": label, "L": L, "u": job[2], "nzc": job[3], "root_e": job[4],
+                "ue": {k: uecat[k] for k in {key(o["d"]) for o in job[7] if o["kind"] == "s-user"}},
+                "est": estcat if any(o["kind"] == "s-est" for o in job[7]) else {}, "ops": job[7], "failing": failing}
+
+    for job, (okc, known, bad) in zip(jobs, res):
         ctx.ok(n=okc)
         ctx.trace_done()
+        for kn in known[:1]:
+            ctx.finding(c18.FID_EXTRADIM, f"{label}: {kn['what']}", case_of(job, kn))
         if bad:
             ctx.violation(f"{label}: {bad['what']}",
                           {"kind": "session", "label": label, "L": L, "u": job[2], "nzc": job[3], "root_e": job[4],
@@ -217,7 +246,10 @@ def explore(ctx, cfgrow, r):
 
 
 def replay(ctx, c):
-    okc, bad = run_path((c["label"], c["L"], c["u"], c["nzc"], c["root_e"], c["ue"], c["est"], c["ops"]))
+    from . import c18
+    okc, known, bad = run_path((c["label"], c["L"], c["u"], c["nzc"], c["root_e"], c["ue"], c["est"], c["ops"]))
     ctx.ok(n=okc)
+    for kn in known[:1]:
+        ctx.finding(c18.FID_EXTRADIM, f"{c['label']}: {kn['what']}", c)
     if bad:
         ctx.violation(f"{c['label']}: {bad['what']}", c)
